@@ -1,9 +1,11 @@
 #!/bin/sh
-# dev helper: build given theories-relative .v files
+# dev helper: build given theories-relative .v files, show rc and first error
 cd /verif && python3 -c "
 import sys; sys.path.insert(0,'lib')
-import vlib
+import vlib, re
 try:
-    print(vlib.coq_make(sys.argv[1:])[-300:])
-except vlib.Broken as e: print(e.what); print(e.detail)
-" "$@"
+    vlib.coq_make(sys.argv[1:]); print('BUILD OK')
+except vlib.Broken as e:
+    d=e.detail; i=d.find('File \"')
+    print('BUILD FAILED'); print(d[i:i+1500] if i>=0 else d[-1500:])
+" "$@" 2>/dev/null
